@@ -92,7 +92,12 @@ def derive_userkey(kdf, salt, password):
         return Scrypt(salt=salt, length=kdf['length'], n=kdf.get('n', 1 << 20), r=kdf.get('r', 8),
                       p=kdf.get('p', 1)).derive(password)
     if name == 'blake2b':
-        return hashlib.blake2b(b'', key=password, salt=salt, digest_size=kdf.get('length', 64)).digest()
+        try:
+            return hashlib.blake2b(b'', key=password, salt=salt, digest_size=kdf.get('length', 64)).digest()
+        except ValueError as e:
+            # BLAKE2b takes keys of at most 64 bytes: a key file claiming this KDF for a longer password cannot have
+            # been derived as documented
+            raise RefError(f'user key is not derivable as documented (blake2b KDF): {e}') from None
     raise RefError(f'unknown kdf {name!r}')
 
 
